@@ -18,7 +18,7 @@ EXPLANATION = (
     "isolation in the three _notify_subscribers (C07.R7 re-used). Ordering between concurrently completing callbacks is not decided."
 )
 ASSUMPTIONS = ["dataclass __eq__ compares all fields (the records are @dataclass without eq=False)", "set.add is idempotent, set.discard removes"]
-FLOORS = {"C12.R1": 27, "C12.R2": 9, "C12.R3": 8, "C12.R4": 20, "C12.R5": 3}
+FLOORS = {"C12.R1": 27, "C12.R2": 9, "C12.R3": 8, "C12.R4": 20, "C12.R5": 3, "C12.R6": 1}
 
 UPDATE_FUNCS = [
     (AT4_API, "At4Zone", "update_"),
@@ -37,6 +37,45 @@ def run(ctx):
     r3(ctx)
     r4(ctx)
     r5(ctx)
+    r6(ctx)
+
+
+RECORDS = ("_ac_status", "_ac_timer_status", "_group_status", "_zone_status", "_console_version", "_ac_ability", "_ac_error_info")
+
+
+def r6(ctx):
+    """The stored records are replaced, never modified: change detection compares the stored record with the new one, so an
+    in-place write (directly or through a local alias) makes the next identical report look unchanged and shows unconfirmed values."""
+    R = "C12.R6"
+    n_fn = 0
+    for modname in (AT4_API, AT5_API):
+        m = ctx.repo.module(modname)
+        for qual, fnode in iter_functions(m):
+            if ".<locals>." in qual or "." not in qual:
+                continue
+            writes = []
+            for st in walk_no_nested(fnode):
+                tg = []
+                if isinstance(st, ast.Assign):
+                    tg = st.targets
+                elif isinstance(st, (ast.AugAssign, ast.AnnAssign)):
+                    tg = [st.target]
+                for t in tg:
+                    if isinstance(t, (ast.Attribute, ast.Subscript)) and not (isinstance(t, ast.Attribute) and isinstance(t.value, ast.Name) and t.value.id == "self"):
+                        writes.append((st, t))
+                if isinstance(st, ast.Call) and isinstance(st.func, ast.Attribute) and st.func.attr in ("append", "extend", "insert", "update", "clear", "pop", "remove", "__setattr__") and not isinstance(st.func.value, ast.Name):
+                    pass
+            if not writes:
+                continue
+            n_fn += 1
+            f = Fn(ctx.repo, m, qual)
+            for st, t in writes:
+                node = next((n for n in f.cfg.nodes if n.ast is st), None)
+                base = t.value
+                txt = f.expand_text(base, node) if node is not None else norm_text(base)
+                bad = any(txt == f"self.{r}" or txt.startswith(f"self.{r}.") or txt.startswith(f"self.{r}[") for r in RECORDS)
+                ctx.check(not bad, R, f"{qual}:write({norm_text(t)})", m, st, "stored status records are replaced as a whole, never written in place (also not through a local alias)", f"`{norm_text(st)[:90]}` modifies {txt}")
+    ctx.holds(R, "api:in-place-writes-census", ctx.repo.module(AT5_API), None, f"{n_fn} functions with attribute/item writes inspected")
 
 
 def update_functions(ctx):
